@@ -205,6 +205,20 @@ def check_qlm(run, pkg, weighted):
         q_final = Z
     # ---- coarse graining
     cg = [e for e in stores(it) if e.data["op"] == "+" and e is not ev and len(e.loops) == 3 and e.loops[0] == Lf.id]
+    cg2 = [e for e in stores(it) if e.data["op"] == "+" and e is not ev and len(e.loops) == 2 and e.loops[0] == Lf.id]
+    if not cg and len(cg2) == 1:
+        # vectorised over the neighbours of particle i
+        ce = cg2[0]
+        ci = it.loops[ce.loops[1]].target
+        Q = ce.data["target"][1]
+        tgt, src = ce.data["target"][2], ce.data["value"]
+        gather = tgt == ci and src in (("call", ".sum", (("sub", q_final, ("sub", NL, ("tuple", (ci, ("slice", C(1), ("bin", "+", nbr_count(NL, ci), C(1)), NONE))))),), (("axis", C(0)),)),
+                                       ("call", ".sum", (("sub", q_final, ("sub", NL, ("tuple", (ci, ("slice", C(1), ("bin", "+", C(1), nbr_count(NL, ci)), NONE))))),), (("axis", C(0)),)))
+        scatter = is_nbr_slice(tgt, NL, ci) and src == ("sub", q_final, ci)
+        run.ob("R-ALG", fq, f"{v}:coarse:sum", True if gather else (False if scatter else None), "particle i gathers the local vectors of its listed neighbours (row i receives, columns 1..cn_i give)",
+               key_of(ce)[:100], witness=None if gather else ("q_i is scattered onto i's neighbours: equals the gather only for symmetric neighbour relations (not for N-nearest lists)" if scatter else None),
+               loc=loc_of(it, ce))
+        return
     if len(cg) != 1:
         run.ob("R-ALG", fq, f"{v}:coarse", None, "coarse-graining accumulation found", f"{len(cg)} candidates", loc=fi.loc())
         return
